@@ -68,6 +68,8 @@ type FnVC struct {
 	ghostTy      map[string]types.Type
 	debug        map[*ssa.BasicBlock][]debugBind
 	private      map[*ssa.Alloc]string
+	protected    []*ssa.Alloc
+	panicPoints  []panicPoint
 	closures     map[ssa.Value]*ssa.MakeClosure
 	warnings     []string
 	callOrd      map[string]int
@@ -80,6 +82,11 @@ type FnVC struct {
 	curBlock     *ssa.BasicBlock
 	cur          *Mem
 	mode         string // "full" or "safety"
+}
+
+type panicPoint struct {
+	lit Term
+	mem *Mem
 }
 
 type debugBind struct {
@@ -428,6 +435,7 @@ func (vc *FnVC) translate() (err error) {
 	vc.findLoops()
 	vc.collectDebug()
 	vc.findPrivate()
+	vc.findProtected()
 	vc.mem0 = vc.e.newMem("base", vc.emit)
 	vc.assume("true", app(">", vc.mem0.get(nextComp), "0"))
 
@@ -442,6 +450,7 @@ func (vc *FnVC) translate() (err error) {
 	for _, p := range fn.FreeVars {
 		t := vc.declare("fv$"+p.Name(), vc.e.sortOf(p.Type()))
 		vc.vals[p] = t
+		vc.params[p.Name()] = TV{t: t, ty: p.Type()}
 		vc.assumeWF(t, p.Type(), vc.mem0)
 		vc.assume("true", app(">", t, "0"))
 	}
@@ -498,8 +507,25 @@ func (vc *FnVC) translate() (err error) {
 				m = vc.initGhosts(m)
 			}
 		case b == fn.Recover:
-			lit = vc.declare(fmt.Sprintf("b%d", b.Index), "Bool")
-			m = vc.mem0.havoc(nil, vc.keepSet())
+			// reached when a panic was recovered by a deferred call: the state at one of the calls that may panic
+			// (the callee's partial effects included), then the deferred calls ran
+			if len(vc.panicPoints) == 0 {
+				lit = "false"
+				m = vc.mem0
+				break
+			}
+			sel := vc.declare(fmt.Sprintf("panicpoint%d", b.Index), "Int")
+			var conds []Term
+			var mems []*Mem
+			for k, pp := range vc.panicPoints {
+				conds = append(conds, and(pp.lit, app("=", sel, fmt.Sprint(k))))
+				mems = append(mems, pp.mem)
+			}
+			lit = vc.define(fmt.Sprintf("b%d", b.Index), "Bool", or(conds...))
+			vc.blockLit[b] = lit
+			vc.cur = joinMems(vc.e, vc.emit, mems, conds)
+			vc.runDefersAtRecover()
+			m = vc.cur
 		default:
 			var edges []Term
 			var mems []*Mem
@@ -646,6 +672,77 @@ func (vc *FnVC) findPrivate() {
 				vc.e.comp(name, "(Array Int "+vc.e.sortOf(t)+")")
 				vc.private[a] = name
 			}
+		}
+	}
+}
+
+// findProtected: local cells whose only escape is being captured by closures that this function only defers or calls.
+func (vc *FnVC) findProtected() {
+	for _, b := range vc.fn.Blocks {
+		for _, in := range b.Instrs {
+			a, ok := in.(*ssa.Alloc)
+			if !ok || vc.private[a] != "" {
+				continue
+			}
+			if _, isArr := a.Type().Underlying().(*types.Pointer).Elem().Underlying().(*types.Array); isArr {
+				continue
+			}
+			okAll := true
+			captured := false
+			if refs := a.Referrers(); refs != nil {
+				for _, r := range *refs {
+					switch u := r.(type) {
+					case *ssa.UnOp, *ssa.DebugRef:
+					case *ssa.Store:
+						if u.Val == ssa.Value(a) {
+							okAll = false
+						}
+					case *ssa.FieldAddr, *ssa.IndexAddr:
+						if vc.escapes(u.(ssa.Value), map[ssa.Value]bool{}) {
+							okAll = false
+						}
+					case *ssa.MakeClosure:
+						captured = true
+						if crefs := u.Referrers(); crefs != nil {
+							for _, cr := range *crefs {
+								switch c := cr.(type) {
+								case *ssa.Defer:
+									if c.Call.Value != ssa.Value(u) {
+										okAll = false
+									}
+								case *ssa.Call:
+									if c.Call.Value != ssa.Value(u) {
+										okAll = false
+									}
+								case *ssa.DebugRef:
+								default:
+									okAll = false
+								}
+							}
+						}
+					default:
+						okAll = false
+					}
+				}
+			}
+			if okAll && captured {
+				vc.protected = append(vc.protected, a)
+			}
+		}
+	}
+}
+
+// protectCells: after a havoc of everything by a callee that cannot reach this function's protected cells, they keep their value.
+func (vc *FnVC) protectCells(before, after *Mem) {
+	for _, a := range vc.protected {
+		r, ok := vc.vals[a]
+		if !ok {
+			continue
+		}
+		comp := vc.lvOf0(a)
+		x, y := before.get(comp), after.get(comp)
+		if x != y {
+			vc.assume("true", app("=", app("select", y, r), app("select", x, r)))
 		}
 	}
 }
